@@ -1,5 +1,6 @@
 /- Helper lemmas for C04 (regular tiles: integer arithmetic). -/
 import OdcGeo.Model.C04
+import OdcGeo.Model.C04Spec
 import Mathlib.Tactic.Linarith
 import Mathlib.Tactic.Ring
 namespace OdcGeo.C04
@@ -66,15 +67,6 @@ theorem ediv_unique (y n i : Int) (hn : 0 < n) (h1 : i * n ≤ y) (h2 : y < (i +
 
 
 /-! ### variable tiles: prefix sums -/
-
-/-- exact prefix sums of a chunk tuple: `pre ch k = ch[0] + … + ch[k-1]` -/
-def pre : List Int → Nat → Int
-  | _, 0 => 0
-  | [], _ + 1 => 0
-  | c :: cs, k + 1 => c + pre cs k
-
-/-- the hypothesis of the variable-tile theorems: non-negative chunks whose sum fits `int32` -/
-def ChunksOK (ch : List Int) : Prop := (∀ c ∈ ch, 0 ≤ c) ∧ total ch < 2147483648
 
 theorem wrap32_id (x : Int) (h : -2147483648 ≤ x ∧ x < 2147483648) : wrap32 x = x := by
   unfold wrap32; omega
@@ -230,10 +222,6 @@ theorem total_eq_sum (ch : List Int) : total ch = ch.sum := by
   | cons c cs ih => simp [total, ih]
 
 /-! ### numpy's binary search against the linear scan -/
-
-/-- non-decreasing list -/
-def Sorted (xs : List Int) : Prop :=
-  ∀ (i j : Nat) (v w : Int), i ≤ j → xs[i]? = some v → xs[j]? = some w → v ≤ w
 
 theorem bsearchRight_spec (xs : List Int) (key : Int) (hs : Sorted xs) :
     ∀ fuel lo hi, lo ≤ hi → hi ≤ xs.length → hi - lo < fuel →
@@ -479,5 +467,179 @@ theorem pySlice_inrange (xs : List Int) (a b : Nat) (hab : a ≤ b ∧ b ≤ xs.
   have e1 : (min (a : Int) (xs.length : Int)).toNat = a := by omega
   have e2 : (min (b : Int) (xs.length : Int) - min (a : Int) (xs.length : Int)).toNat = b - a := by omega
   rw [e1, e2]
+
+theorem npGet_ok_mem (a : List Int) (j v : Int) (h : npGet a j = .ok v) :
+    ∃ k : Nat, a[k]? = some v := by
+  unfold npGet at h
+  simp only [] at h
+  generalize (if j < 0 then j + (a.length : Int) else j) = jj at h
+  by_cases hc : jj < 0 ∨ jj ≥ a.length
+  · rw [if_pos hc] at h; cases h
+  · rw [if_neg hc] at h
+    cases hw : a[jj.toNat]? with
+    | none => rw [hw] at h; cases h
+    | some w => rw [hw] at h; cases h; exact ⟨_, hw⟩
+
+theorem getItem_nonneg (N n : Int) (hn : 0 < n) (idx : PIdx) (s : NSlice)
+    (h : getItem N n idx = .ok s) : 0 ≤ s.start ∧ 0 ≤ s.stop := by
+  simp only [getItem] at h
+  split at h
+  · next hc =>
+    cases h
+    simp only []
+    refine ⟨hc.1, ?_⟩
+    have : 0 ≤ (normSlice idx (count N n)).stop * n := by
+      cases idx with
+      | idx i =>
+        rw [normSlice_idx] at hc ⊢
+        simp only [] at hc ⊢
+        have e : ∀ j : Int, (j + 1) * n = j * n + n := fun j => by ring
+        rw [e]; omega
+      | slc a b =>
+        apply Int.mul_nonneg _ (by omega)
+        cases a <;> cases b <;> simp [normSlice, wrapNeg] <;> omega
+    omega
+  · cases h
+
+theorem vgetItem_nonneg (ch : List Int) (hok : ChunksOK ch) (idx : PIdx) (s : NSlice)
+    (h : vgetItem ch idx = .ok s) : 0 ≤ s.start ∧ 0 ≤ s.stop := by
+  have key : ∀ j v, npGet (offsets ch) j = .ok v → 0 ≤ v := by
+    intro j v hv
+    obtain ⟨k, hw⟩ := npGet_ok_mem _ _ _ hv
+    have hlt := (List.getElem?_eq_some_iff.1 hw).1
+    rw [offsets_length] at hlt
+    rw [offsets_getElem? ch hok _ (by omega)] at hw
+    cases hw
+    exact pre_nonneg ch hok.1 _
+  simp only [vgetItem] at h
+  split at h
+  · cases h
+  · cases ha : npGet (offsets ch) (normSlice idx (vcount ch)).start with
+    | error e => rw [ha] at h; cases h
+    | ok a =>
+      cases hb : npGet (offsets ch) (normSlice idx (vcount ch)).stop with
+      | error e => rw [ha, hb] at h; cases h
+      | ok b =>
+        rw [ha, hb] at h
+        cases h
+        exact ⟨key _ _ ha, key _ _ hb⟩
+
+theorem sliceIntersect3_nonneg (a b : NSlice) (ha : 0 ≤ a.start ∧ 0 ≤ a.stop)
+    (hb : 0 ≤ b.start ∧ 0 ≤ b.stop) :
+    sliceIntersect3 a.toPIdx b.toPIdx = .ok (intersect3N a b) := by
+  simp only [sliceIntersect3, NSlice.toPIdx, normSliceOrError, bind, Except.bind, pure, Except.pure]
+  rw [if_neg (by omega), if_neg (by omega)]
+
+theorem assignMap_inrange (nd ns : Int) (d s : NSlice)
+    (hd : 0 ≤ d.start ∧ d.start ≤ d.stop ∧ d.stop ≤ nd)
+    (hs : 0 ≤ s.start ∧ s.start ≤ s.stop ∧ s.stop ≤ ns)
+    (hlen : d.stop - d.start = s.stop - s.start) :
+    assignMap nd ns d s = .ok fun j =>
+      if d.start ≤ j ∧ j < d.stop then some (s.start + (j - d.start)) else none := by
+  have e1 : effSlice nd d = (d.start, d.stop - d.start) := by
+    simp only [effSlice, PySlice.bounds, PySlice.clampBound]
+    rw [if_neg (by omega), if_neg (by omega)]
+    congr 1 <;> omega
+  have e2 : effSlice ns s = (s.start, s.stop - s.start) := by
+    simp only [effSlice, PySlice.bounds, PySlice.clampBound]
+    rw [if_neg (by omega), if_neg (by omega)]
+    congr 1 <;> omega
+  simp only [assignMap, e1, e2]
+  rw [if_pos hlen]
+  congr 1
+  funext j
+  have : d.start + (d.stop - d.start) = d.stop := by omega
+  rw [this]
+
+theorem axis_paste (b w : NSlice) (hb : 0 ≤ b.start ∧ b.start ≤ b.stop)
+    (hw : 0 ≤ w.start ∧ w.start ≤ w.stop) :
+    ∃ s d ab m, sliceIntersect3 b.toPIdx w.toPIdx = .ok (s, d, ab) ∧
+      assignMap (w.stop - w.start) (b.stop - b.start) d s = .ok m ∧
+      ∀ j, 0 ≤ j ∧ j < w.stop - w.start →
+        m j = if b.start ≤ w.start + j ∧ w.start + j < b.stop
+              then some (w.start + j - b.start) else none := by
+  rw [sliceIntersect3_nonneg b w ⟨hb.1, by omega⟩ ⟨hw.1, by omega⟩]
+  by_cases h1 : b.stop < w.start
+  · have hi : intersect3N b w = (⟨b.stop - b.start, b.stop - b.start⟩, ⟨0, 0⟩, ⟨b.stop, b.stop⟩) := by
+      simp only [intersect3N]; rw [if_pos h1]
+    rw [hi]
+    refine ⟨_, _, _, _, rfl, assignMap_inrange _ _ _ _ (by simp only []; omega) (by simp only []; omega)
+      (by simp only []; omega), ?_⟩
+    intro j hj
+    simp only []
+    rw [if_neg (by omega), if_neg (by omega)]
+  · by_cases h2 : b.start > w.stop
+    · have hi : intersect3N b w =
+          (⟨0, 0⟩, ⟨w.stop - w.start, w.stop - w.start⟩, ⟨b.start, b.start⟩) := by
+        simp only [intersect3N]; rw [if_neg h1, if_pos h2]
+      rw [hi]
+      refine ⟨_, _, _, _, rfl, assignMap_inrange _ _ _ _ (by simp only []; omega)
+        (by simp only []; omega) (by simp only []; omega), ?_⟩
+      intro j hj
+      simp only []
+      rw [if_neg (by omega), if_neg (by omega)]
+    · have hi : intersect3N b w =
+          (⟨max b.start w.start - b.start, min b.stop w.stop - b.start⟩,
+           ⟨max b.start w.start - w.start, min b.stop w.stop - w.start⟩,
+           ⟨max b.start w.start, min b.stop w.stop⟩) := by
+        simp only [intersect3N]; rw [if_neg h1, if_neg h2]
+      rw [hi]
+      refine ⟨_, _, _, _, rfl, assignMap_inrange _ _ _ _ (by simp only []; omega)
+        (by simp only []; omega) (by simp only []; omega), ?_⟩
+      intro j hj
+      simp only []
+      by_cases hc : b.start ≤ w.start + j ∧ w.start + j < b.stop
+      · rw [if_pos (by omega), if_pos hc]; congr 1; omega
+      · rw [if_neg (by omega), if_neg hc]
+
+theorem extraMaps_spec (ns : List Int) (ws : List NSlice) (h : WinOK ws ns) :
+    ∃ ms, extraMaps ns ws = .ok ms ∧
+      ∀ idx, InBox idx (lens ws) → mapIdx ms idx = some (shift ws idx) := by
+  induction ws generalizing ns with
+  | nil =>
+    cases ns with
+    | nil =>
+      refine ⟨[], rfl, ?_⟩
+      intro idx hi
+      cases idx with
+      | nil => rfl
+      | cons j js => simp [InBox, lens] at hi
+    | cons n ns => simp [WinOK] at h
+  | cons w ws ih =>
+    cases ns with
+    | nil => simp [WinOK] at h
+    | cons n ns =>
+      obtain ⟨hw, hrest⟩ := h
+      obtain ⟨ms, hms, hspec⟩ := ih ns hrest
+      have ha := assignMap_inrange (w.stop - w.start) n ⟨0, w.stop - w.start⟩ w
+        (by simp only []; omega) hw (by simp only []; omega)
+      simp only [] at ha
+      refine ⟨(fun j => if 0 ≤ j ∧ j < w.stop - w.start then some (w.start + (j - 0)) else none) :: ms,
+        by simp only [extraMaps, ha, hms, bind, Except.bind, pure, Except.pure], ?_⟩
+      intro idx hi
+      cases idx with
+      | nil => simp [InBox, lens] at hi
+      | cons j js =>
+        simp only [lens, List.map_cons, InBox] at hi
+        obtain ⟨hj, hjs⟩ := hi
+        have := hspec js hjs
+        simp only [mapIdx, shift, this, bind, Option.bind, pure]
+        rw [if_pos (by omega)]
+        simp
+
+theorem lens_any_neg (ws : List NSlice) (ns : List Int) (h : WinOK ws ns) :
+    (lens ws).any (· < 0) = false := by
+  induction ws generalizing ns with
+  | nil => rfl
+  | cons w ws ih =>
+    cases ns with
+    | nil => simp [WinOK] at h
+    | cons n ns =>
+      obtain ⟨hw, hrest⟩ := h
+      simp only [lens, List.map_cons, List.any_cons]
+      have := ih ns hrest
+      simp only [lens] at this
+      rw [this]
+      simp; omega
 
 end OdcGeo.C04
